@@ -132,6 +132,10 @@ def describe(m):
 def leaf_input(spec, dtype, gen, kind=0):
     """an input batch suitable for one leaf; kind selects the rank / batch shape"""
     t = spec["t"]
+    # variants 12..23 / 24..35: the same shapes with small-magnitude activations (1e-2, 1e-3 of the usual range)
+    mag = [1.0, 1e-2, 1e-3][(kind // 12) % 3]
+    if mag != 1.0:
+        return (leaf_input(spec, torch.float32, gen, kind % 12) * mag).to(dtype)
     if t == "linear":
         lead = [(3,), (2, 3), (2, 2, 2), (1,)][kind % 4]
         return torch.randn(*lead, spec["in"], generator=gen).to(dtype)
